@@ -242,11 +242,33 @@ impl<'r> G<'r> {
                             let nl = self.rng.urange(1, 3);
                             (0..nl)
                                 .map(|_| {
-                                    let nc = if self.rng.chance(1, 12) { 0 } else { self.rng.urange(1, 3) };
+                                    // hinted glyphs (after the first) that this lookup does not skip
+                                    let avail = hints.iter().skip(1).filter(|h| h.first().map_or(false, |&g| !self.skipped(flag, ms, g))).count();
+                                    let nc = if self.rng.chance(1, 12) {
+                                        0
+                                    } else if avail >= 1 && self.rng.chance(3, 4) {
+                                        self.rng.urange(1, avail.min(3))
+                                    } else {
+                                        self.rng.urange(1, 3)
+                                    };
                                     let mut comps = Vec::new();
-                                    for k in 0..nc {
-                                        let c = match hints.get(k + 1) {
-                                            Some(h) if !h.is_empty() && self.rng.chance(3, 4) => *self.rng.pick(h),
+                                    let mut hp = 1;
+                                    for _ in 0..nc {
+                                        // next hinted glyph this lookup does not skip
+                                        let mut c = None;
+                                        while let Some(h) = hints.get(hp) {
+                                            hp += 1;
+                                            if h.is_empty() {
+                                                break;
+                                            }
+                                            let g = *self.rng.pick(h);
+                                            if !self.skipped(flag, ms, g) {
+                                                c = Some(g);
+                                                break;
+                                            }
+                                        }
+                                        let c = match c {
+                                            Some(g) if self.rng.chance(5, 6) => g,
                                             _ => self.glyph_ns(flag, ms),
                                         };
                                         comps.push(c);
@@ -269,20 +291,43 @@ impl<'r> G<'r> {
         if self.core {
             let sigpres = pflag != 0;
             let t = self.rng.below(100);
-            let (flag, ms) = if self.rng.bool() { (pflag, pms) } else { (0, None) };
-            if t < 33 {
+            // nested lookups carry their own flags: the parent's, none, or unrelated ones
+            let (flag, ms) = match self.rng.below(4) {
+                0 => (pflag, pms),
+                1 => (0, None),
+                _ => self.flags(),
+            };
+            let (mut lflag, mut lms) = match self.rng.below(5) {
+                0 => (pflag, pms),
+                1 => (0, None),
+                _ => self.flags(),
+            };
+            // aim: the ligature lookup skips the parent's second input glyph but not the first
+            if hints.len() >= 3 && self.rng.chance(3, 4) {
+                if let (Some(&g0), Some(&g1)) = (hints[0].first(), hints[1].first()) {
+                    for _ in 0..8 {
+                        let (f, m) = self.flags();
+                        if self.skipped(f, m, g1) && !self.skipped(f, m, g0) {
+                            lflag = f;
+                            lms = m;
+                            break;
+                        }
+                    }
+                }
+            }
+            if t < 30 {
                 let l = self.simple(1, flag, ms, sigpres, hints);
                 lookups.push(l);
-            } else if t < 53 {
+            } else if t < 47 {
                 let l = self.simple(2, flag, ms, sigpres, hints);
                 lookups.push(l);
-            } else if t < 63 {
+            } else if t < 55 {
                 let l = self.simple(3, flag, ms, sigpres, hints);
                 lookups.push(l);
             } else if t < 85 || depth > 0 {
-                // nested ligature: same skipping as the parent so that its components are the
-                // parent's following sequence positions
-                let l = self.simple(4, pflag, pms, sigpres, hints);
+                // nested ligature with its own flags; its components are taken from the parent's
+                // following input glyphs that the ligature lookup itself does not skip
+                let l = self.simple(4, lflag, lms, sigpres, hints);
                 lookups.push(l);
             } else {
                 // inner context whose nested lookups are single substitutions
